@@ -11,6 +11,7 @@ import re
 from . import sched_common as sc
 from . import c01
 from . import notime
+from . import announce
 from .. import common
 from ..schedlib import model_request, run_impl
 
@@ -115,6 +116,17 @@ def run(ctx, res):
     res.assumptions = ["6% of the cases contain a component that declares itself FINISHED before the end time: these exhibit the recorded finding finished-status-overwritten and are classified, not hidden"]
     specs = corpus() + [gen(ctx) for _ in range(ctx.n(300, 6000))]
     sc.run_cases(specs, res, [oracle], exclude=c01_known)
+    # the package's own time-stepped components (engines/announce.py): every update moves the component to the time it
+    # announced (strictly later), with fixed, sub-second and calendar steps, and the run ends at or beyond an end time that
+    # may lie a few microseconds behind a grid point
+    for _ in range(ctx.n(60, 800)):
+        c = announce.gen(ctx.rng)
+        impl = announce.run(c)
+        res.case(c, len(impl["log"]) >= 4)
+        res.count("part", "announce/" + c["comp"])
+        o = announce.oracle(c, impl)
+        if o:
+            res.fail(c, o[0], o[1])
     # compositions without any time-stepped component (engines/notime.py): nothing to step, the life cycle is walked all the same
     for _ in range(ctx.n(24, 200)):
         c = notime.gen(ctx.rng)
@@ -126,6 +138,13 @@ def run(ctx, res):
 
 
 def search(ctx, res, divergences, broken):
+    for _ in range(300):
+        c = announce.gen(ctx.rng)
+        res.case(c, True)
+        o = announce.oracle(c, announce.run(c))
+        if o:
+            res.fail(c, o[0], o[1], None)
+            return
     for _ in range(60):
         c = notime.gen(ctx.rng)
         res.case(c, True)
@@ -146,7 +165,7 @@ def search(ctx, res, divergences, broken):
 
 
 def shrink(ctx, f):
-    if f["case"].get("part") == "notime":
+    if f["case"].get("part") in ("notime", "announce"):
         return f
 
     def still(t):
@@ -162,6 +181,10 @@ def shrink(ctx, f):
 
 def replay(ctx, rp):
     case = rp.get("input") or (rp.get("diverging_case") or {}).get("case")
+    if case.get("part") == "announce":
+        impl = announce.run(case)
+        o = announce.oracle(case, impl)
+        return {"fails": bool(o), "oracle": o, "log": impl["log"]}
     if case.get("part") == "notime":
         impl = notime.run(case)
         o = notime.oracle(case, impl)
